@@ -163,7 +163,81 @@ pub fn c10(ctx: &Ctx, subj: &dyn DynSubject, ty: &Ty, rep: &mut Report) {
     });
 }
 
+/// Files of more than one and more than two mebibytes whose last bytes are zeros, cut at each of their last 72
+/// bytes: every loader that must not zero-extend (load_full; mmap under every flag combination) has to fail.
+fn c11_big(ctx: &Ctx, subj: &dyn DynSubject, ty: &Ty, rep: &mut Report) {
+    use vmodel::ty::{Arg, Prim};
+    let Ty::Adt(i, args) = ty else { return };
+    if ctx.u.label != "extra" || ctx.u.adts[*i].name != "G1" || light() {
+        return;
+    }
+    if !matches!(args.first(), Some(Arg::Ty(Ty::Vec(e))) if **e == Ty::Prim(Prim::U64)) {
+        return;
+    }
+    let mk = |n: usize| {
+        let x = Val::P(0x0102_0304_0506_0708u64.to_ne_bytes().to_vec());
+        let mut items = vec![x; n];
+        for it in items.iter_mut().rev().take(16) {
+            *it = Val::P(vec![0; 8]);
+        }
+        Val::Rec(vec![Val::Seq(items)])
+    };
+    let is_big = |v: &Val| matches!(v, Val::Rec(f) if matches!(f.first(), Some(Val::Seq(x)) if x.len() > 100_000));
+    let vals = match crate::checks::replay_val() {
+        Some(v) if is_big(&v) => vec![v],
+        Some(_) => return,
+        None => vec![mk(140_001), mk(300_008)],
+    };
+    let never = strategy_for(ctx, ty, GenCfg { max_len: 1, long: false });
+    crate::runner::run_cases_pre(ctx, subj, rep, &vals, never, 0, &|v, log| {
+        let path = ctx.tmp.join(format!("c11big-{}-{:?}.bin", subj.index(), std::thread::current().id()).replace(['(', ')'], ""));
+        match guard(|| subj.store(v, &path)) {
+            Ok(Ok(())) => {}
+            other => return Err(Fail::new("store-failed", format!("store failed: {:?}", other.map(|r| r.map_err(|e| format!("{:?}", e)))))),
+        }
+        let len = std::fs::metadata(&path).map_err(|e| Fail::new("harness:tmpfile", format!("{}", e)))?.len() as usize;
+        log.nontrivial = true;
+        log.classes.push(if len >= 2 << 20 { "file-over-2MiB-zero-tail".into() } else { "file-over-1MiB-zero-tail".into() });
+        log.sample = Some(json!({"subject": subj.name(), "file_len": len, "cuts": "each of the last 72 bytes", "loaders": "load_full, mmap under 6 flag combinations"}));
+        let f = std::fs::OpenOptions::new().write(true).open(&path).map_err(|e| Fail::new("harness:tmpfile", format!("{}", e)))?;
+        for k in (len - 72..len).rev() {
+            f.set_len(k as u64).map_err(|e| Fail::new("harness:tmpfile", format!("{}", e)))?;
+            log.extra_evals += 1;
+            log.extra_nontrivial.push(hash_sub(subj.name(), &Val::Unit, "c11big", k as u64, len as u64));
+            match guard(|| subj.load(Loader::LoadFull, &path, 0, crate::Script::Direct)) {
+                Ok(Err(e)) => match e.downcast_ref::<deser::Error>() {
+                    Some(deser::Error::ReadError) => {}
+                    other => return Err(Fail::new("trunc-loadfull-error", format!("load_full of a file cut at {} of {}: error is {:?} / {}, not ReadError", k, len, other, e)).env(json!({"k": k}))),
+                },
+                Ok(Ok(_)) => return Err(Fail::new("trunc-loadfull-value", format!("load_full of a file of {} bytes (trailing bytes zero) cut at {} returned a value", len, k)).env(json!({"k": k}))),
+                Err(p) => return Err(Fail::new(&format!("trunc-loadfull-panic:{}", panic_class(&p)), format!("load_full of a file cut at {} of {} panicked: {}", k, len, p)).env(json!({"k": k}))),
+            }
+            if cfg!(feature = "mmap") {
+                for flags in [0u32, 1, 2, 4, 3, 7] {
+                    log.extra_evals += 1;
+                    match guard(|| subj.load(Loader::Mmap, &path, flags, crate::Script::Direct)) {
+                        Ok(Err(_)) => {}
+                        Ok(Ok(_)) => return Err(Fail::new("trunc-mmap-value", format!("mmap (flag bits {:#b}) of a file of {} bytes (trailing bytes zero) cut at {} returned a value", flags, len, k)).env(json!({"k": k, "flags": flags}))),
+                        Err(p) => {
+                            if !is_bounds_panic(&p) {
+                                return Err(Fail::new(&format!("trunc-mmap-panic:{}", panic_class(&p)), format!("mmap of a file cut at {} of {} panicked with something other than a bounds check: {}", k, len, p)).env(json!({"k": k})));
+                            }
+                        }
+                    }
+                }
+            }
+        }
+        drop(f);
+        std::fs::remove_file(&path).ok();
+        Ok(())
+    });
+}
+
 pub fn c11(ctx: &Ctx, subj: &dyn DynSubject, ty: &Ty, rep: &mut Report) {
+    c11_big(ctx, subj, ty, rep);
+    if !rep.failures.is_empty() || matches!(crate::checks::replay_val(), Some(Val::Rec(f)) if matches!(f.first(), Some(Val::Seq(x)) if x.len() > 100_000)) {
+        return;
+    }
     let strat = with_entropy(strategy_for(ctx, ty, GenCfg { max_len: 6, long: false }), 64);
     let file_budget = if ctx.tier == Tier::Thorough { 24 } else { 6 };
     crate::runner::run_cases(ctx, subj, rep, strat, ctx.cases, &|case, log| {
